@@ -231,7 +231,7 @@ def impl(lines, **kw):
 OP_MODULE = {"span": "Span", "gcscript": "Gc", "sort": "Sort", "lex": "Lexer", "parse": "Parser", "json": "Json",
              "codec": "Codec", "obj": "Object", "fmt": "Format", "str": "Str", "cmp": "Compare", "core": "Eval",
              "ana": "Analyze", "thunk": "Thunk", "tstack": "TraceStack", "num": "Num", "cli": "Cli", "imp": "Import",
-             "yaml": "Yaml", "toml": "Toml"}
+             "yaml": "Yaml", "toml": "Toml", "pipe": "Pipeline"}
 _built_drivers = set()
 
 
